@@ -376,3 +376,46 @@ def _diffraction_limit(ct, tier, seed):
 
 contract('C11.runtime.diffraction_limit', [MTF + ':FFTMTF._generate_mtf_data', MTF + ':FFTMTF._get_mtf_units', MTF + ':GeometricMTF._generate_mtf_data',
                                            MTF + ':GeometricMTF._compute_field_data'], ['C11'], custom=_diffraction_limit)(lambda c: None)
+
+
+def _working_fno(finite):
+    @contract('C11.FFTMTF.working_fno.' + ('finite' if finite else 'infinite'), [MTF + ':FFTMTF._get_fno', MTF + ':FFTMTF.__init__'], ['C11'], max_paths=16)
+    def wf(c):
+        """the F-number behind the reported cut-off is the *working* F-number N (1 + |m| / p) with the signed pupil magnification
+        p = XPD / EPD for a finite object, and N itself for an object at infinity"""
+        M = c.mod('optiland.mtf')
+        N = c.real('FNO', 1.0, 12.0, positive=True)
+        m = c.real('magnification', -3, 3)
+        xpd, epd = c.real('XPD', -20, 20, nonzero=True), c.real('EPD', 1, 20, positive=True)
+
+        class Px:
+            def FNO(self_):
+                return N
+
+            def XPD(self_):
+                return xpd
+
+            def EPD(self_):
+                return epd
+
+            def magnification(self_):
+                return m
+
+        class Obj:
+            is_infinite = not finite
+
+        class Opt:
+            paraxial = Px()
+            object_surface = Obj()
+        o = object.__new__(M.FFTMTF)
+        o.optic = Opt()
+        got = c.val(o._get_fno())
+        if finite:
+            c.ensure_eq('C11.mtf.cutoff_uses_the_working_f_number_with_signed_pupil_magnification', got, N * (1 + c.abs(m) * epd / xpd))
+        else:
+            c.ensure_eq('C11.mtf.cutoff_uses_the_f_number_for_an_object_at_infinity', got, N)
+    return wf
+
+
+_working_fno(True)
+_working_fno(False)
